@@ -1,19 +1,42 @@
 """C03 configuration for bin/check."""
 
-CFG = {'assumptions': ['monotone fragment (generator emits inserts, lattice sets, unions, rules, runs only)'],
+CFG = {'assumptions': ['monotone fragment (generator emits inserts, lattice sets, unions, rules, runs only)',
+                 'c03_equiv is stated for every fragment P of ground commands with idempotent re-application '
+                 '(hypotheses written out in Props/C03.v: an executed command is a no-op afterwards; a no-op stays a '
+                 'no-op when further fragment commands run; grounding through witness terms is stable; an invariant W '
+                 'of reachable databases). These hypotheses are NOT yet discharged for the Egg interpreter by a general '
+                 'proof (only exercised by the vm_compute Examples c03_stamped_example); discharging them for the '
+                 'insert/union/lattice-set/subsume fragment over WFx is the remaining proof work',
+                 'the stamped model orders the fired matches as the naive interpreter does (a sub-sequence); the engine '
+                 'batches all actions of an iteration, so the order inside an iteration is not observable'],
  'corr_is_violation': True,
  'harness': [{'bin': 'h_egg', 'extra': ['--prop', 'C03'], 'name': 'h_egg', 'prefix': 'cases_egg'}],
- 'link_only': 'that every path changing what a row means re-stamps it (rebuild re-insert, value-changing '
-              'merge, container refresh): decided by running the semi-naive engine, the naive engine '
-              '(seminaive=false) and the naive model in lockstep and comparing observations after EVERY '
-              'command',
- 'model_targets': ['Egg/Rules.vo'],
+ 'link_only': 'that the real engine stamps rows exactly as Semi/Stamped.v restamp does (rebuild re-insert, value-changing '
+              'merge, container refresh): the SITES are Tier-A facts (gen/SemiFacts.v) but per-row timestamps are not '
+              'observable through the public API, so the behaviour is decided by running the semi-naive engine, the naive '
+              'engine (seminaive=false) and the naive model in lockstep and comparing observations after EVERY command; '
+              'container refresh (dirty-id closure) is lockstep only; the idempotent-re-application hypotheses of c03_equiv',
+ 'model_targets': ['Egg/Rules.vo', 'Semi/Stamped.vo'],
  'proof_targets': ['Props/C03.vo'],
- 'theorem_backed': 'history theorem: with the frontier run_rules_impl uses now (regenerated: the rule\'s own last_run_at, advanced to next_ts) every match fires exactly once over any history of batches / rulesets; delta decomposition: a match is fired by the semi-naive variants iff it is not all-old, '
-                   'and then by exactly one variant; old = not new for the emitted constraints; a never-run '
-                   "rule sees everything; rebuild rules' sole focus uses the same constraint",
- 'tier_a': ['UFSeq', 'MergeArms', 'BridgeFns', 'Facts.semi_constraints', 'Facts.semi_frontier'],
+ 'theorem_backed': 'stamped executable model on top of the Egg rule interpreter (rows carry last-written timestamps, recomputed '
+                   'after every command under the regenerated flags; run_semi fires only matches that are not matches of the '
+                   'database filtered to rows OLD for the rule under the regenerated constraint/frontier; run_naive fires all). '
+                   'c03_equiv: for every signature, program (top-level writes, late rule declarations, iterations of any '
+                   'rulesets in any order) and fragment with idempotent re-application, run_semi = run_naive after EVERY '
+                   'command; c03_ts_inv: what semi-naive skips has only no-op commands (invariant ts_inv kept by every '
+                   'command, ts_inv_reachable); c03_stamp_old: a stamp older than the clock was inherited from the identical '
+                   'row of the previous table; c03_restamp_sites: all regenerated re-stamping facts hold; '
+                   'c03_restamp_on_rebuild_refuted / c03_restamp_on_merge_refuted: flipping a flag loses a concrete match. '
+                   'Also (before): history theorem over the regenerated frontier, delta decomposition over the regenerated '
+                   'constraints, first run sees everything, sole focus uses the same constraint',
+ 'tier_a': ['UFSeq', 'MergeArms', 'BridgeFns', 'Facts.semi_constraints', 'Facts.semi_frontier',
+            'SemiFacts.rebuild_restamp', 'SemiFacts.rebuild_clock', 'SemiFacts.merge_restamp', 'SemiFacts.inc_ts'],
  'trusted': ['translator /verif/translator: gen/SourceFacts.v records the timestamp constraints '
              'add_rules_from_cached emits (focus GeConst, earlier atoms LtConst over the prefix 0..focus); '
              'the delta-decomposition theorem is stated over them',
+             'translator x_semi.rs: gen/SemiFacts.v records the re-stamping sites (insert_row! writes next_ts before '
+             'stage_insert and every rebuild path inserts through it; refresh_rows_for_values; EGraph::rebuild hands the '
+             'current clock to apply_rebuild and advances it; MergeFn::to_callback writes the incoming timestamp iff value '
+             'or subsume flag changed; run_rules_inner/flush_updates_inner inc_ts; run_rules_impl last_run_at = next_ts); '
+             'matching is on whitespace-free token text of syn-located functions',
              'naive Gallina model coq/Egg/Rules.v tied to the engine by the correspondence check']}
